@@ -583,4 +583,6 @@ func runC11(c *engine.Ctx) {
 	// ---- R10 idle backend (work) connections are pooled per route and endpoint (shared with C02.R4): a pooled work
 	// connection announced for one proxy must not serve a request routed to another ----
 	checkPoolKey(c, "R10")
+	// ---- R11 closing a (rate-limited) work connection closes the real one (shared with C10.R12) ----
+	checkWrapperCloseFns(c, "R11")
 }
